@@ -210,6 +210,12 @@ pub fn build_req(id: u32, method: String, path: String, version: &str, mut extra
         let at = (ins + (mask as usize >> 12)) % (extra.len() + 1);
         extra.insert(at, Hdr { name: case_variant("Connection", mask >> 5), pre: " ".into(), value: c, post: String::new() });
     }
+    // a TE header now and then: the response coding then follows the request (HTTP/1.1 only matters)
+    if (mask >> 13) % 8 == 0 && !extra.iter().any(|h| h.name.eq_ignore_ascii_case("te")) {
+        let v = ["chunked", "identity", "trailers", "chunked;q=0.5, identity;q=0.2", "identity;q=0.9, chunked;q=0.1"][(mask as usize >> 17) % 5];
+        let at = (mask as usize >> 19) % (extra.len() + 1);
+        extra.insert(at, Hdr::new("TE", v));
+    }
     if expect {
         let at = (mask as usize >> 16) % (extra.len() + 1);
         extra.insert(at, Hdr { name: case_variant("Expect", mask >> 7), pre: " ".into(), value: case_variant("100-continue", mask >> 9), post: String::new() });
@@ -233,6 +239,8 @@ pub fn framing_strategy(max_len: usize) -> BoxedStrategy<(Framing, Option<usize>
 pub fn sentinel(id: u32) -> ReqSpec {
     let mut r = ReqSpec::simple(id);
     r.path = "/sentinel".into();
+    // body-less requests of every kind must frame alike
+    r.method = ["GET", "GET", "DELETE", "OPTIONS", "CONNECT", "TRACE", "PURGE", "get"][id as usize % 8].to_string();
     r
 }
 
